@@ -1,5 +1,8 @@
 import ObiVerif.Lemmas.Demux
 import ObiVerif.Lemmas.DemuxRead
+import ObiVerif.Lemmas.DemuxEdit
+import ObiVerif.Lemmas.DemuxDelim
+import ObiVerif.Lemmas.NgsFilter
 /-!
 # C12 — Demultiplexing assigns the declared sample, the exact barcode, on either strand
 
@@ -8,7 +11,7 @@ real code by the correspondence check of `harness/c12.go`).
 -/
 namespace ObiVerif.Props.C12
 
-open ObiVerif.SeqOps (Bytes rc subsequence)
+open ObiVerif.SeqOps (Bytes rc subsequence nucComplement)
 open ObiVerif.Demux
 
 /-! ## distances -/
@@ -55,6 +58,35 @@ theorem levenshtein_is_edit_distance (s1 s2 : Bytes) :
 /-- test on concrete values: "kitten"/"sitting" = 3, "flaw"/"lawn" = 2 -/
 example : levenshtein [107, 105, 116, 116, 101, 110] [115, 105, 116, 116, 105, 110, 103] = 3 ∧
     levenshtein [102, 108, 97, 119] [108, 97, 119, 110] = 2 := by decide
+
+/-- **The edit-distance specification on the strings as given.**  `editDist` is invariant under
+reversal (`editDist_reverse`, proved through the characterisation below), so the two-row programme
+computes the edit distance of `s1` and `s2` themselves, not only of the reversed strings. -/
+theorem levenshtein_eq_editDist (s1 s2 : Bytes) : levenshtein s1 s2 = editDist s1 s2 := by
+  rw [levenshtein_is_edit_distance, editDist_reverse]
+
+/-- … and that number is the **cost of a cheapest edit script** (`Align s t n`: `s` is rewritten
+into `t` by deletions, insertions, substitutions of cost 1 and matches of cost 0, total `n`): a
+script of cost `levenshtein s1 s2` exists and no script is cheaper.  This is the specification of
+the "indel" matching mode independent of any recurrence. -/
+theorem levenshtein_min_script (s1 s2 : Bytes) :
+    Align s1 s2 (levenshtein s1 s2) ∧ ∀ n, Align s1 s2 n → levenshtein s1 s2 ≤ n := by
+  rw [levenshtein_eq_editDist]
+  exact editDist_isLeast s1 s2
+
+/-- `Levenshtein` is a metric on byte strings (the code calls `dist(declared, observed)`; the
+order of the arguments is irrelevant) -/
+theorem levenshtein_metric (s t u : Bytes) :
+    (levenshtein s t = 0 ↔ s = t) ∧ levenshtein s t = levenshtein t s ∧
+    levenshtein s u ≤ levenshtein s t + levenshtein t u ∧
+    levenshtein s t ≤ max s.length t.length ∧ s.length - t.length ≤ levenshtein s t := by
+  simp only [levenshtein_eq_editDist]
+  exact ⟨editDist_eq_zero_iff s t, editDist_comm s t, editDist_triangle s t u,
+    editDist_le_max_length s t, length_sub_le_editDist s t⟩
+
+/-- non-vacuity: a concrete script of cost 3 for kitten → sitting (test) -/
+example : Align [107, 105, 116, 116, 101, 110] [115, 105, 116, 116, 105, 110, 103] 3 :=
+  (levenshtein_min_script _ _).1
 
 /-! ## nearest unique tag -/
 
@@ -646,6 +678,191 @@ theorem strand_symmetry (ms : List Marker) (n n' : Nat) (mk : Marker) (s : Sampl
   rw [e1', e2', e3', e4']
   exact h2
 
+/-! ## built reads with fixed-length **or delimited** tags -/
+
+/-- `constructed_read` for any way of extracting the tags short of rescue: each side of the marker
+is either fixed-length (any spacer) or delimited (`indels = 0`, spacer = non-empty run of the
+delimiter, delimiter-free tag preceded by a delimiter in the outer flank) — `SideBuilt`.  The two
+delimited extractors look for the tag in windows of different widths (`2·(2·spacer+tag)` before a
+primer, `2·(spacer+tag)` after it): on a built read both windows contain the tag with its two
+delimiters, so the difference is immaterial. -/
+theorem constructed_read_any_tags (ms : List Marker) (n n' : Nat) (mk : Marker) (s : Sample)
+    (flankL tagF spF pf bc pr spR tagR flankR : Bytes) (k1 k2 : Int)
+    (hms : ms[n]? = some mk)
+    (hF : SideBuilt mk.fside tagF spF flankL.getLast?)
+    (hR : SideBuilt mk.rside tagR spR (flankR.head?.map nucComplement))
+    (hpf : 0 < pf.length) (hbc : 0 < bc.length) (hpr : 0 < pr.length)
+    (halpha : ∀ b ∈ pr ++ tagR, b ∈ alphabet)
+    (hdecl : lookupPair mk.samples tagF tagR = some s) :
+    let b1 : Int := (flankL.length : Int) + tagF.length + spF.length
+    let e1 : Int := b1 + pf.length
+    let b2 : Int := e1 + bc.length
+    let e2 : Int := b2 + pr.length
+    amplicons ms (builtRead flankL tagF spF pf bc pr spR tagR flankR) (builtHits n n' b1 e1 b2 e2 k1 k2)
+      = .ok [{ marker := n + 1, forward := true, subFrom := e1, subTo := b2, barcode := bc,
+               fmatch := pf, rmatch := pr, ferr := k1, rerr := k2, ftag := tagF, rtag := tagR,
+               ident := identify mk tagF tagR }] ∧
+    (identify mk tagF tagR).pcr = some s := by
+  intro b1 e1 b2 e2
+  have hprA : ∀ b ∈ pr, b ∈ alphabet := fun b hb => halpha b (by simp [hb])
+  have htrA : ∀ b ∈ tagR, b ∈ alphabet := fun b hb => halpha b (by simp [hb])
+  constructor
+  · have hrd : builtRead flankL tagF spF pf bc pr spR tagR flankR =
+        (flankL ++ tagF ++ spF) ++ pf ++ bc ++ rc pr ++ (rc spR ++ rc tagR ++ flankR) := by
+      simp [builtRead, List.append_assoc]
+    have hbt : beginTag ((flankL ++ tagF ++ spF) ++ pf ++ bc ++ rc pr ++ (rc spR ++ rc tagR ++ flankR))
+        mk.fside ((flankL ++ tagF ++ spF).length : Int) = .ok tagF := by
+      have := beginTag_built flankL tagF spF (pf ++ bc ++ rc pr ++ (rc spR ++ rc tagR ++ flankR))
+        mk.fside hF
+      simp only [List.length_append, Int.natCast_add]
+      simpa only [List.append_assoc] using this
+    have het : endTag ((flankL ++ tagF ++ spF) ++ pf ++ bc ++ rc pr ++ (rc spR ++ rc tagR ++ flankR))
+        mk.rside (((flankL ++ tagF ++ spF).length : Int) + pf.length + bc.length + pr.length)
+        = .ok tagR := by
+      have := endTag_built ((flankL ++ tagF ++ spF) ++ pf ++ bc ++ rc pr) spR tagR flankR mk.rside
+        htrA hR
+      simp only [List.length_append, Int.natCast_add, rc_length] at this ⊢
+      simpa only [List.append_assoc] using this
+    have := built_core ms n n' mk (flankL ++ tagF ++ spF) pf bc pr (rc spR ++ rc tagR ++ flankR)
+      tagF tagR k1 k2 hms hpf hbc hpr hprA hbt het
+    rw [hrd]
+    simp only [List.length_append, Int.natCast_add] at this
+    exact this
+  · exact (constructed_read_ident mk s tagF tagR hdecl)
+
+/-- the hypotheses are satisfiable: a marker with a delimited forward side (delimiter `a`, spacer 2,
+window widths 14 / 10) and a fixed-length reverse side; the tag `cgt` sits between `a` and `aa` -/
+def exDelimMarker : Marker :=
+  { fprimer := "acgt", rprimer := "ttga", ftaglen := 3, rtaglen := 2, fspacer := 2, rspacer := 0,
+    fdelim := 97, rdelim := 0, findels := 0, rindels := 0, fmode := .indel, rmode := .strict,
+    samples := [⟨[99, 103, 116], [103, 116], "s1", "e", []⟩, ⟨[99, 99, 116], [103, 116], "s2", "e", []⟩] }
+
+example := constructed_read_any_tags [exDelimMarker] 0 0 exDelimMarker ⟨[99, 103, 116], [103, 116], "s1", "e", []⟩
+  [116, 97] [99, 103, 116] [97, 97] [97, 99, 103, 116] [99, 99, 99] [116, 116, 103, 97] [] [103, 116] [97] 0 1
+  rfl (by refine ⟨rfl, rfl, Or.inr ?_⟩; decide) (by refine ⟨rfl, rfl, Or.inl rfl⟩)
+  (by decide) (by decide) (by decide) (by decide) (by decide)
+
+/-- test: the same instance evaluated by the model, read and reverse-complemented read -/
+example : ((amplicons [exDelimMarker]
+    (builtRead [116, 97] [99, 103, 116] [97, 97] [97, 99, 103, 116] [99, 99, 99] [116, 116, 103, 97] [] [103, 116] [97])
+    (builtHits 0 0 7 11 14 18 0 1)).toOption.map (·.map (fun a => (a.barcode, a.forward, a.ftag, a.ident.pcr.map (·.name))))
+    = some [([99, 99, 99], true, [99, 103, 116], some "s1")]) := by decide
+
+theorem constructed_read_rc_any_tags (ms : List Marker) (n n' : Nat) (mk : Marker)
+    (flankL tagF spF pf bc pr spR tagR flankR : Bytes) (k1 k2 : Int)
+    (hms : ms[n]? = some mk)
+    (hF : SideBuilt mk.fside tagF spF flankL.getLast?)
+    (hR : SideBuilt mk.rside tagR spR (flankR.head?.map nucComplement))
+    (hpf : 0 < pf.length) (hbc : 0 < bc.length) (hpr : 0 < pr.length)
+    (halpha : ∀ b ∈ tagF ++ pf ++ bc, b ∈ alphabet) :
+    let b1 : Int := (flankR.length : Int) + tagR.length + spR.length
+    let e1 : Int := b1 + pr.length
+    let b2 : Int := e1 + bc.length
+    let e2 : Int := b2 + pf.length
+    amplicons ms (builtRead (rc flankR) tagR spR pr (rc bc) pf spF tagF (rc flankL))
+        (builtHitsRc n n' b1 e1 b2 e2 k1 k2)
+      = .ok [{ marker := n + 1, forward := false, subFrom := e1, subTo := b2, barcode := bc,
+               fmatch := pf, rmatch := pr, ferr := k1, rerr := k2, ftag := tagF, rtag := tagR,
+               ident := identify mk tagF tagR }] := by
+  intro b1 e1 b2 e2
+  have hpfA : ∀ b ∈ pf, b ∈ alphabet := fun b hb => halpha b (by simp [hb])
+  have htfA : ∀ b ∈ tagF, b ∈ alphabet := fun b hb => halpha b (by simp [hb])
+  have hbcA : ∀ b ∈ bc, b ∈ alphabet := fun b hb => halpha b (by simp [hb])
+  -- the sides seen from the other strand
+  have hR' : SideBuilt mk.rside tagR spR (rc flankR).getLast? := by
+    rw [rc_getLast_eq]; exact hR
+  have hF' : SideBuilt mk.fside tagF spF ((rc flankL).head?.map nucComplement) := by
+    refine hF.mono ?_
+    intro hacgt h
+    rw [rc_head_eq, h]
+    simp [(acgt_comp_comp _ hacgt).1]
+  generalize hfR : rc flankR = fR at *
+  generalize hfL : rc flankL = fL at *
+  have hfRl : fR.length = flankR.length := by rw [← hfR, rc_length]
+  have hrd : builtRead fR tagR spR pr (rc bc) pf spF tagF fL =
+      (fR ++ tagR ++ spR) ++ pr ++ rc bc ++ rc pf ++ (rc spF ++ rc tagF ++ fL) := by
+    simp [builtRead, List.append_assoc]
+  have hbt : beginTag ((fR ++ tagR ++ spR) ++ pr ++ rc bc ++ rc pf ++ (rc spF ++ rc tagF ++ fL))
+      mk.rside ((fR ++ tagR ++ spR).length : Int) = .ok tagR := by
+    have := beginTag_built fR tagR spR (pr ++ rc bc ++ rc pf ++ (rc spF ++ rc tagF ++ fL))
+      mk.rside hR'
+    simp only [List.length_append, Int.natCast_add]
+    simpa only [List.append_assoc] using this
+  have het : endTag ((fR ++ tagR ++ spR) ++ pr ++ rc bc ++ rc pf ++ (rc spF ++ rc tagF ++ fL))
+      mk.fside (((fR ++ tagR ++ spR).length : Int) + pr.length + (rc bc).length + pf.length)
+      = .ok tagF := by
+    have := endTag_built ((fR ++ tagR ++ spR) ++ pr ++ rc bc ++ rc pf) spF tagF fL mk.fside
+      htfA hF'
+    simp only [List.length_append, Int.natCast_add, rc_length] at this ⊢
+    simpa only [List.append_assoc] using this
+  have := built_core_rc ms n n' mk (fR ++ tagR ++ spR) pf (rc bc) pr (rc spF ++ rc tagF ++ fL)
+    tagF tagR k1 k2 hms hpf (by rw [rc_length]; exact hbc) hpr hpfA hbt het
+  rw [hrd]
+  simp only [List.length_append, Int.natCast_add, rc_length, rc_rc bc hbcA, hfRl] at this
+  exact this
+
+/-- **Strand symmetry for built reads, fixed-length or delimited tags** (generalises
+`strand_symmetry`) -/
+theorem strand_symmetry_any_tags (ms : List Marker) (n n' : Nat) (mk : Marker) (s : Sample)
+    (flankL tagF spF pf bc pr spR tagR flankR : Bytes) (k1 k2 : Int)
+    (hms : ms[n]? = some mk)
+    (hF : SideBuilt mk.fside tagF spF flankL.getLast?)
+    (hR : SideBuilt mk.rside tagR spR (flankR.head?.map nucComplement))
+    (hpf : 0 < pf.length) (hbc : 0 < bc.length) (hpr : 0 < pr.length)
+    (halpha : ∀ b ∈ tagF ++ pf ++ bc ++ pr ++ spR ++ tagR, b ∈ alphabet)
+    (hdecl : lookupPair mk.samples tagF tagR = some s) :
+    let read := builtRead flankL tagF spF pf bc pr spR tagR flankR
+    let L : Int := read.length
+    let b1 : Int := (flankL.length : Int) + tagF.length + spF.length
+    let e1 : Int := b1 + pf.length
+    let b2 : Int := e1 + bc.length
+    let e2 : Int := b2 + pr.length
+    ∃ a : Amplicon,
+      amplicons ms read (builtHits n n' b1 e1 b2 e2 k1 k2) = .ok [a] ∧
+      amplicons ms (rc read) (builtHitsRc n n' (L - e2) (L - b2) (L - e1) (L - b1) k1 k2)
+        = .ok [{ a with forward := false, subFrom := L - a.subTo, subTo := L - a.subFrom }] ∧
+      a.forward = true ∧ a.barcode = bc ∧ a.ident.pcr = some s := by
+  intro read L b1 e1 b2 e2
+  have h1 := constructed_read_any_tags ms n n' mk s flankL tagF spF pf bc pr spR tagR flankR k1 k2 hms
+    hF hR hpf hbc hpr (fun b hb => halpha b (by
+      simp only [List.mem_append] at hb ⊢; rcases hb with hb | hb <;> simp [hb])) hdecl
+  have h2 := constructed_read_rc_any_tags ms n n' mk flankL tagF spF pf bc pr spR tagR flankR k1 k2 hms
+    hF hR hpf hbc hpr (fun b hb => halpha b (by
+      simp only [List.mem_append] at hb ⊢; rcases hb with (hb | hb) | hb <;> simp [hb]))
+  have hrc := rc_builtRead flankL tagF spF pf bc pr spR tagR flankR (fun b hb => halpha b (by
+      simp only [List.mem_append] at hb ⊢; rcases hb with (hb | hb) | hb <;> simp [hb]))
+  have hlen : L = (flankL.length : Int) + tagF.length + spF.length + pf.length + bc.length + pr.length +
+        spR.length + tagR.length + flankR.length := by
+    simp only [L, read, builtRead, List.length_append, rc_length, Int.natCast_add]
+  refine ⟨_, h1.1, ?_, rfl, rfl, h1.2⟩
+  simp only at h2 ⊢
+  rw [hrc]
+  have e1' : L - e2 = (flankR.length : Int) + tagR.length + spR.length := by
+    simp only [hlen, e2, b2, e1, b1]; omega
+  have e2' : L - b2 = (flankR.length : Int) + tagR.length + spR.length + pr.length := by
+    simp only [hlen, b2, e1, b1]; omega
+  have e3' : L - e1 = (flankR.length : Int) + tagR.length + spR.length + pr.length + bc.length := by
+    simp only [hlen, e1, b1]; omega
+  have e4' : L - b1 = (flankR.length : Int) + tagR.length + spR.length + pr.length + bc.length + pf.length := by
+    simp only [hlen, b1]; omega
+  rw [e1', e2', e3', e4']
+  exact h2
+
+/-- … and the precise limit of that symmetry outside built reads: the begin-side window is
+`2·(2·spacer+tag)` wide, the end-side window `2·(spacer+tag)`.  With spacer 1 and tags of length 3
+(widths 10 and 8), a tag `ccc` separated from the primer by the delimiter and four more bases
+(`a ccc a gggg | primer`, 9 bases up to the delimiter before the tag) is found before the primer and
+missed after it: the same molecule read on the other strand loses its tag (the read is then not
+assigned — safety is not affected, symmetry is).  Not a built read: the declared spacer is not
+respected. -/
+theorem delimited_window_asymmetry :
+    -- site = tt a ccc a gggg, primer = ctct, side = ⟨tag length 3, spacer 1, delimiter a, no rescue⟩
+    (beginTag ([116, 116, 97, 99, 99, 99, 97, 103, 103, 103, 103] ++ [99, 116, 99, 116]) ⟨3, 1, 97, 0⟩ 11).toOption
+      = some [99, 99, 99] ∧
+    (endTag (rc [99, 116, 99, 116] ++ rc [116, 116, 97, 99, 99, 99, 97, 103, 103, 103, 103]) ⟨3, 1, 97, 0⟩ 4).toOption
+      = some [] := by
+  decide
+
 /-! ## chimeric reads: which hits delimit a barcode, on either strand -/
 
 /-- the forward → reverse state machine of `ExtractMultiBarcode` extracts exactly the pairs made of
@@ -686,6 +903,74 @@ theorem gating_breaks_symmetry :
     adjPairs (sortByBegin (collect [h'] 1)) = [(⟨20, 42, 0, 1, false⟩, ⟨248, 267, 0, -1, false⟩)] ∧
     sortByBegin (collect [h'] 1) ≠ mirrorList 288 (sortByBegin (collect [h] 1)) := by
   decide
+
+/-! ## the sample sheet as read (model of `ReadNGSFilter`, `Model/NgsFilter.lean`) -/
+
+/-- the `@param` lines of a CSV sheet — whatever their number, order, names, arities and values —
+only write parameters: the primers of the markers and their tag pair → sample tables are those of
+the rows -/
+theorem params_touch_parameters_only (lib l : NgsFilter.Lib) (ps : List (List String))
+    (h : NgsFilter.applyParams lib ps = .ok l) :
+    l.map (fun m => (m.fp, m.rp, m.samples)) = lib.map (fun m => (m.fp, m.rp, m.samples)) :=
+  NgsFilter.applyParams_key lib l ps h
+
+/-- a sheet accepted by the reader, in either format: no primer is used twice (also after the
+`@param` lines have been applied) and `CheckTagLength` holds for every marker -/
+theorem accepted_sheet_wellformed (lib : NgsFilter.Lib)
+    (h : (∃ recs, NgsFilter.readSheetCsv recs = .ok lib) ∨ (∃ lines, NgsFilter.readSheetOld lines = .ok lib)) :
+    NgsFilter.unicity lib = true ∧ ∀ m ∈ lib, ∃ mk, NgsFilter.toMarker m = some mk := by
+  have key : NgsFilter.unicity lib = true ∧ NgsFilter.tagLengthsOk lib = true := by
+    rcases h with ⟨recs, h⟩ | ⟨lines, h⟩
+    · exact NgsFilter.readSheetCsv_wf recs lib h
+    · exact NgsFilter.readSheetOld_wf lines lib h
+  refine ⟨key.1, ?_⟩
+  intro m hm
+  have := List.all_eq_true.1 key.2 m hm
+  unfold NgsFilter.toMarker
+  cases hc : checkTagLength m.samples with
+  | none => simp [hc] at this
+  | some p => exact ⟨_, rfl⟩
+
+/-- **Safety for every accepted sheet**: the hypotheses of `never_wrong_sample` are discharged for
+the markers of a sheet accepted by the reader — whatever the read, the primer hits and the way the
+tags are extracted (fixed, delimited or rescue), a sample is returned only if the extracted tags
+identify it under the declared mode -/
+theorem accepted_sheet_never_wrong_sample (m : NgsFilter.LMarker) (mk : Marker)
+    (hmk : NgsFilter.toMarker m = some mk)
+    (seq : Bytes) (b e : Int) (fwd : Bool) (ft rt : Bytes)
+    (hx : tagExtractor mk seq b e fwd = .ok (ft, rt)) (s : Sample)
+    (h : (identify mk ft rt).pcr = some s) :
+    s ∈ mk.samples ∧
+    (if ft = [] then s.ftag = [] ∧ (identify mk ft rt).fprop = none
+      else Identifies mk.fmode (mk.samples.map (·.ftag)) ft s.ftag ∧
+        ∃ d, (identify mk ft rt).fprop = some (s.ftag, d)) ∧
+    (if rt = [] then s.rtag = [] ∧ (identify mk ft rt).rprop = none
+      else Identifies mk.rmode (mk.samples.map (·.rtag)) rt s.rtag ∧
+        ∃ d, (identify mk ft rt).rprop = some (s.rtag, d)) := by
+  unfold NgsFilter.toMarker at hmk
+  cases hc : checkTagLength m.samples with
+  | none => simp [hc] at hmk
+  | some p =>
+    simp only [hc, Option.map_some, Option.some.injEq] at hmk
+    subst hmk
+    obtain ⟨w1, w2, _⟩ := wf_tags_nonempty m.samples p.1 p.2 hc
+    obtain ⟨u1, u2⟩ := tagExtractor_untagged _ seq b e fwd ft rt hx
+    refine never_wrong_sample _ ft rt s ?_ ?_ h
+    · intro hft
+      apply w1
+      intro h0
+      exact hft (u1 (by simp [h0]))
+    · intro hrt
+      apply w2
+      intro h0
+      exact hrt (u2 (by simp [h0]))
+
+/-- the hypothesis `toMarker m = some mk` is satisfiable (test) -/
+def exLMarker : NgsFilter.LMarker :=
+  { fp := "acgt", rp := "ttga"
+    samples := [⟨[97, 99], [103, 116], "s1", "e", []⟩, ⟨[97, 97], [103, 116], "s2", "e", []⟩] }
+
+example : (NgsFilter.toMarker exLMarker).isSome = true := by decide
 
 /-! ## otherwise flagged with an error -/
 
